@@ -127,6 +127,14 @@ def alive(st):
     return st in ("r", "k")
 
 
+def step_nominal(s):
+    """the time the daemon had scheduled this step for: a timer that fires late because the loop was busy (a blocking
+    Popen that takes `spawn_ms`) still carries its own deadline"""
+    if s.kind() == "wake" and s.before.sleepers:
+        return s.before.t + min(s.before.sleepers)
+    return s.before.t
+
+
 def step_begin(s):
     """virtual time at which the code of step s started to run: a wake jumps to the deadline of the earliest timer"""
     if s.kind() == "wake" and s.before.sleepers:
@@ -293,6 +301,10 @@ def c11(sc, V):
             continue
         errs = [r for r in s.of("rep") if r[3] == "error" and r[4] in ("1", "2", "3", "4", "5")]
         if not errs:
+            continue
+        if s.cmd() == "signal" and errs[0][4] == "5":
+            # `signal` takes no slot, so its errno 5 is never a conflict: it is an exception raised while delivering
+            # (a target vanished, a foreign pid with children/recursive) — not a validation-class refusal
             continue
         eff = [l for l in s.lines if l[0] in ("spawn", "ev", "reap", "close") or (l[0] == "sig" and l[3] != "g")]
         b, a = s.before, s.snap
@@ -489,9 +501,9 @@ def c03(sc, V):
                     if T is not None and now < t0a + T:
                         f.append({"sig": "sigkill-early", "step": s.n,
                                   "msg": "pid %d SIGKILLed at most %d ms after the stop signal, graceful_timeout %d ms" % (pid, now - t0a, T)})
-                    if T is not None and t_start > t0b + T + 100:
+                    if T is not None and step_nominal(s) > t0b + T + 100:
                         f.append({"sig": "sigkill-late", "step": s.n,
-                                  "msg": "pid %d SIGKILLed at least %d ms after the stop signal, graceful_timeout %d ms" % (pid, t_start - t0b, T)})
+                                  "msg": "pid %d SIGKILLed at least %d ms after the stop signal, graceful_timeout %d ms" % (pid, step_nominal(s) - t0b, T)})
         # a worker that outlives its grace period gets SIGKILL: Process.stop()'s terminate() (the trace marks it
         # "t") only ever finds a live process when kill_process gave up waiting without escalating
         for i, l in enumerate(s.lines):
@@ -660,10 +672,12 @@ def c04(sc, V):
                     not (s.n > 0 and V[s.n - 1].kind() == "fault"):
                 for pid, wn in listed.items():
                     w = a.w(wn)
-                    if w["status"] != "stopped" and not alive(a.kernel.get(pid, ("g", None))[0]):
+                    # "beyond one periodic check": it was already dead when this check began
+                    if w["status"] != "stopped" and not alive(a.kernel.get(pid, ("g", None))[0]) and \
+                            not alive(s.before.kernel.get(pid, ("g", None))[0]):
                         f.append({"sig": "dead-pid-listed-after-check", "step": s.n, "msg": "pid %d of %s is dead but still listed" % (pid, wn)})
                 for pid, (st, pp) in a.kernel.items():
-                    if st == "z" and pp == 0 and pid not in orphaned_ok:
+                    if st == "z" and pp == 0 and pid not in orphaned_ok and s.before.kernel.get(pid, ("g", None))[0] == "z":
                         f.append({"sig": "zombie-after-check", "step": s.n, "msg": "zombie %d outlives a periodic check" % pid})
     return f
 
@@ -704,6 +718,12 @@ def c09(sc, V):
                                   "msg": "pid %d exited with %s, reap event says %s" % (l[3], pending_exit[l[3]], l[4])})
             if l[0] == "ev" and l[2] == "kill":
                 kill_ev[l[3]] = s.n
+            if l[0] == "ev" and l[2] == "remove":
+                # the watcher has left the daemon: its pids are nobody's workers any more (rm --nostop leaves them running,
+                # unsupervised; a later watcher of the same name is a different watcher)
+                for p, o in owner.items():
+                    if res_name(o.replace("_", " ")) == l[1] or res_name(o) == l[1]:
+                        kill_ev.setdefault(p, s.n)
         if s.snap.blocked:
             break
         a = s.snap
@@ -811,8 +831,11 @@ def c14(sc, V, counters=None):
                                 f.append({"sig": "start-not-aborted", "step": x.n,
                                           "msg": "%s: hook %s failed but watcher is %s with %r" % (wn, h, w["status"], w["procs"])})
                         else:
+                            # a worker that already got SIGKILL is dying (a later terminate() may have replaced the pending
+                            # death in the kernel's bookkeeping; virtual time has simply not advanced yet)
                             alive = [p for p, (st, pp) in x.snap.kernel.items() if pp == 0 and st == "r" and
-                                     _spawned_for(V, x.n, p) == wn.replace(" ", "_") and not _listed(x.snap, p)]
+                                     _spawned_for(V, x.n, p) == wn.replace(" ", "_") and not _listed(x.snap, p) and
+                                     not _sigkilled_before(V, x.n, p)]
                             if alive and x.snap.quiescent():
                                 f.append({"sig": "aborted-start-left-worker", "step": x.n,
                                           "msg": "%s: hook %s failed, watcher stopped, but %r still alive" % (wn, h, alive)})
